@@ -73,6 +73,13 @@ def cases(tier, seed):
             for hk in ('TB', 'LB', 'LFt'):
                 for pol in ('fresh', 'recycle'):
                     yield [[list(s0), list(s1)], [[r] if r else []], pol, hk]
+    # a low-level thread left behind by test 1 registers itself with
+    # `threading` (gets a name) during test 2 or between the tests
+    for k0 in ('LB', 'LBt'):
+        for s1 in one_:
+            for when in ('in_test2', 'between'):
+                for pol in ('fresh', 'recycle'):
+                    yield [[[k0], list(s1)], [['never']], pol, None, None, when]
     # the threads are started BEFORE a skipped / failing subtest of the same test
     for s0 in [(k,) for k in KL] + [('TB', 'LB')]:
         for s1 in one_:
@@ -156,10 +163,16 @@ def parse_reports(text):
 def run_case(case):
     seq, rels, mode, hookkind = case[:4]
     spec, hook_actions = build(seq, rels, hookkind)
-    if len(case) > 4:
+    if len(case) > 4 and case[4]:
         # the first test goes on after starting its threads: a skipped or
         # failing subtest (result events in the middle of the test)
         spec['tests'][0]['s'] = case[4]
+    if len(case) > 5:
+        if case[5] == 'in_test2':
+            spec['tests'][1]['th'] = [['touch', 't0a']] + list(spec['tests'][1].get('th') or [])
+        else:
+            hook_actions.setdefault(('A', 'testSetUp', 1), []).insert(0, ['touch', 't0a'])
+        worldrt.reset_hook_actions(hook_actions)
     worldrt.reset_hook_actions(hook_actions)
     viol = []
     saved = None
